@@ -38,7 +38,10 @@ TRUSTED_BASE = [
     "A-cap-int: capacity is a positive integer or float('inf')",
     "K-interrupt (assumed, SimPy): a process waiting for a timer of r is resumed either after exactly r or, with "
     "simpy.Interrupt raised at the yield, after some 0<=e<=r; A-no-nested-interrupt: a belt mover waiting for the "
-    "resume signal is not interrupted again (unchecked: the interruption planner is not under contract)",
+    "resume signal is not interrupted again (unchecked: which mover the planner interrupts and when is not under contract)",
+    "K-interrupt-call (assumed, SimPy): Process.interrupt(cause) on a process taken from a bookkeeping dictionary raises "
+    "RuntimeError or schedules an interruption; it runs no user code in the calling segment and touches no store field",
+    "opaque truthiness: a value outside the model is truthy or falsy without constraint (both branches are verified)",
     "A-bookkeeping: the belt stores' dictionaries active_move_processes / active_delayed_interrupt_processes are "
     "outside the modelled state (membership unconstrained; del/lookup assumed not to raise)",
     "A-rearm: at ConveyorBelt.put/get of the continuous conveyor its one-shot events item_arrival_event, "
